@@ -103,6 +103,9 @@ func drawScen(r *Run, o scenOpts) *scen {
 	c.Limit = o.limits[t.Intn(len(o.limits), "limit")]
 	c.Backlog = o.backlogs[t.Intn(len(o.backlogs), "backlog")]
 	c.DebugLog = t.Chance(25, "debug-logger")
+	// minimum-RTT threshold of the underlying limiter: completions faster than it leave no sample, but give their
+	// capacity back like any other
+	c.MinRTTThresh = []time.Duration{0, 0, ms + ms/2, 5 * ms}[t.Intn(4, "min-rtt-threshold")]
 	switch c.Kind {
 	case "blocking":
 		c.Timeout = o.bTimeouts[t.Intn(len(o.bTimeouts), "btimeout")]
